@@ -764,22 +764,29 @@ Section Sim.
   Proof. intros lr fs fs' H j _. apply H; [intros k E; discriminate E|right; eauto]. Qed.
 
   (* expression code binds expression registers #k only: every loop register is kept *)
+  (* ... as seen by load (find_in_function) and in the top frame itself (delete_name_scoped looks there only) *)
   Definition lkeepA (fs fs' : list frame) : Prop :=
-    forall j, find_in_function (lregn j) fs' = find_in_function (lregn j) fs.
+    forall j, find_in_function (lregn j) fs' = find_in_function (lregn j) fs /\
+              assoc (lregn j) (top_vars fs') = assoc (lregn j) (top_vars fs).
   Lemma lkeepA_refl : forall fs, lkeepA fs fs.
-  Proof. intros fs j. reflexivity. Qed.
+  Proof. intros fs j. split; reflexivity. Qed.
   Lemma lkeepA_trans : forall f1 f2 f3, lkeepA f1 f2 -> lkeepA f2 f3 -> lkeepA f1 f3.
-  Proof. intros f1 f2 f3 H1 H2 j. now rewrite (H2 j), (H1 j). Qed.
+  Proof. intros f1 f2 f3 H1 H2 j. destruct (H1 j) as [A1 B1], (H2 j) as [A2 B2]. split; congruence. Qed.
   Lemma lkeepA_lkeep : forall lr fs fs', lkeepA fs fs' -> lkeep lr fs fs'.
   Proof. intros lr fs fs' H j _. apply H. Qed.
+  Lemma lkeep_other : forall lr fs fs' y, (forall k, y <> lregn k) -> (forall z, z <> y -> find_in_function z fs' = find_in_function z fs) -> lkeep lr fs fs'.
+  Proof. intros lr fs fs' y Hy H j _. apply H. apply not_eq_sym. apply Hy. Qed.
   Lemma lkeepA_eq : forall fs fs', fs' = fs -> lkeepA fs fs'.
   Proof. intros fs fs' ->. apply lkeepA_refl. Qed.
   Lemma lregn_not_reg : forall j k, lregn j <> reg k.
   Proof. intros j k E. discriminate E. Qed.
   Lemma lkeepA_ext : forall d lo hi g g', ext d lo hi g g' -> lkeepA (frames g) (frames g').
-  Proof. intros d lo hi g g' He j. apply (ext_find _ _ _ _ _ He). intros (k & _ & _ & E). exact (lregn_not_reg _ _ E). Qed.
-  Lemma lkeepA_other : forall fs fs' y, (forall k, y <> lregn k) -> (forall z, z <> y -> find_in_function z fs' = find_in_function z fs) -> lkeepA fs fs'.
-  Proof. intros fs fs' y Hy H j. apply H. apply not_eq_sym. apply Hy. Qed.
+  Proof.
+    intros d lo hi g g' He j. split; [apply (ext_find _ _ _ _ _ He)|apply (ext_top _ _ _ _ _ He)]; intros (k & _ & _ & E); exact (lregn_not_reg _ _ E).
+  Qed.
+  Lemma lkeepA_other : forall fs fs' y, (forall k, y <> lregn k) -> (forall z, z <> y -> find_in_function z fs' = find_in_function z fs) ->
+    (forall z, z <> y -> assoc z (top_vars fs') = assoc z (top_vars fs)) -> lkeepA fs fs'.
+  Proof. intros fs fs' y Hy H H' j. split; [apply H|apply H']; apply not_eq_sym; apply Hy. Qed.
 
   (* no captured data variable is shadowed by a local outside B' *)
   Definition ncd (B' : list str) (env : fenv) : Prop :=
@@ -1212,12 +1219,13 @@ Section Sim.
     exists g', bind_local g (reg k) w = Some g' /\ Rg pins env s g' /\ tl (frames g') = tl (frames g) /\
                cells g' = cells g ++ [w] /\ out g' = out g /\
                find_in_function (reg k) (frames g') = Some (N.of_nat (length (cells g))) /\
-               (forall y, y <> reg k -> find_in_function y (frames g') = find_in_function y (frames g)).
+               (forall y, y <> reg k -> find_in_function y (frames g') = find_in_function y (frames g) /\
+                                        assoc y (top_vars (frames g')) = assoc y (top_vars (frames g))).
   Proof.
     intros pins env s g k w HG.
     destruct (bind_reg_rel pins env s g (reg k) w HG (reg_not_uname0 k)) as (f & fs & Ef & Hb). cbv zeta in Hb.
     destruct Hb as [Hb HG']. eexists. split; [exact Hb|]. split; [eapply Rg_weaken_pin; exact HG'|].
-    cbn [frames cells out]. rewrite Ef. cbn [tl find_in_function vars lab]. split; [reflexivity|]. split; [reflexivity|].
+    cbn [frames cells out]. rewrite Ef. cbn [tl find_in_function vars lab top_vars]. split; [reflexivity|]. split; [reflexivity|].
     split; [reflexivity|]. split; [now rewrite assoc_set_same|].
     intros y Hy. now rewrite assoc_set_other.
   Qed.
@@ -1258,11 +1266,11 @@ Section Sim.
     exists g2. split; [|split; [exact HG2|split; [exact Ht2|split; [|split; [|split; [exact Ho2|]]]]]].
     - eapply (xstep_next prog name code a1 g1 i1 _ (a_ip a1) (set_ops a1 [])); [reflexivity|exact Hi|apply dec_store_fast|].
       apply (exec_store_fast (reg d) a1 _ w g2); [exact Hops|exact Hb2].
-    - apply (lkeepA_other _ _ (reg d)); [intros k E; discriminate E|]. intros z Hz. exact (Hk2 z Hz).
+    - apply (lkeepA_other _ _ (reg d)); [intros k E; discriminate E| |]; intros z Hz; apply (Hk2 z Hz).
     - exists (N.of_nat (length (cells (trc name a1 g1 i1)))). split; [exact Hf2|].
       unfold cell_get. rewrite Hc2, Nnat.Nat2N.id, nth_error_app2, Nat.sub_diag by lia. reflexivity.
     - intros r0 v Hne Hs0 (cj & F1 & F2). exists cj. split.
-      + rewrite Hk2; [exact F1|]. intros E. apply reg_inj in E; [congruence|exact Hs0|exact Hsd].
+      + rewrite (proj1 (Hk2 (reg r0) ltac:(intros E; apply reg_inj in E; [congruence|exact Hs0|exact Hsd]))). exact F1.
       + unfold cell_get in *. rewrite Hc2. rewrite nth_error_app1; [exact F2|]. apply nth_error_Some. cbn [trc add_trace cells]. congruence.
   Qed.
 
@@ -1552,11 +1560,11 @@ Section Sim.
     exists g2. split; [|split; [exact HG2|split; [exact Ht2|split; [|split; [|split; [exact Ho2|]]]]]].
     - eapply (xstep_next prog name code a1 g1 i1 _ (a_ip a1) (set_ops a1 [])); [reflexivity|exact Hi|apply dec_store_skip; exact Hsn|].
       rewrite (exec_store_skip (reg d) p (Z.of_nat n) a1 _ (VBool b) Hops). rewrite Hpb, Hb2. reflexivity.
-    - apply (lkeepA_other _ _ (reg d)); [intros k E; discriminate E|]. intros z Hz. exact (Hk2 z Hz).
+    - apply (lkeepA_other _ _ (reg d)); [intros k E; discriminate E| |]; intros z Hz; apply (Hk2 z Hz).
     - exists (N.of_nat (length (cells (trc name a1 g1 i1)))). split; [exact Hf2|].
       unfold cell_get. rewrite Hc2, Nnat.Nat2N.id, nth_error_app2, Nat.sub_diag by lia. reflexivity.
     - intros r0 v Hne Hs0 (cj & F1 & F2). exists cj. split.
-      + rewrite Hk2; [exact F1|]. intros E. apply reg_inj in E; [congruence|exact Hs0|exact Hsd].
+      + rewrite (proj1 (Hk2 (reg r0) ltac:(intros E; apply reg_inj in E; [congruence|exact Hs0|exact Hsd]))). exact F1.
       + unfold cell_get in *. rewrite Hc2. rewrite nth_error_app1; [exact F2|]. apply nth_error_Some. cbn [trc add_trace cells]. congruence.
   Qed.
 
@@ -2028,8 +2036,8 @@ Section Sim.
       rewrite (same_tl_length _ _ (Rg_ne _ _ _ HG) Hd). exact Hss.
     - apply act_same_step. exact Ha1.
     - exact (eq_trans Htl Hf1).
-    - apply lkeepA_lkeep. eapply lkeepA_trans; [exact Hlk1|].
-      apply (lkeepA_other _ _ x); [intros k0; exact (uname_not_lregn _ _ Hx)|exact Hoth].
+    - eapply lkeep_trans; [apply lkeepA_lkeep; exact Hlk1|].
+      apply (lkeep_other _ _ _ x); [intros k0; exact (uname_not_lregn _ _ Hx)|exact Hoth].
   Qed.
 
   Lemma print_correct : forall e, stmt_spec (SPrint e).
@@ -3106,6 +3114,7 @@ Section Sim.
         split; [exact (uname_of_b x Hx Hxf)|]. split; [split; [exact HxB|intros Hi; apply In_mem_str in Hi; congruence]|]. auto. }
     destruct Hparts as (Hx & HxB & Hst & Hokb). clear Hok.
     apply step_ok_expr in Hst.
+    cbn [ok_fromb] in Hob.
     rewrite sitems_SFrom in *. cbv zeta in *. cbn [from_idn from_lr1] in *. rewrite step_code_expr in *.
     rewrite (xcode_pure c b (proj1 (ok_expr_parts _ _ Hob))) in *.
     set (se := step_expr step) in *.
@@ -3267,8 +3276,8 @@ Section Sim.
     { intros j Hj. cbn [find_in_function F2 vars lab]. rewrite assoc_set_other by exact (Hnej j Hj).
       change (match assoc (lregn j) (vars f3) with Some c0 => Some c0 | None => if special (lab f3) then find_in_function (lregn j) R else None end)
         with (find_in_function (lregn j) (f3 :: R)).
-      rewrite <- Ef3. change (frames g3t) with (frames g3). rewrite (Hlk3 j).
-      rewrite (Hoth2 (lregn j) (fun E => uname_not_lregn x j Hx (eq_sym E))). change (frames g1t) with (frames g1). exact (Hlk1 j). }
+      rewrite <- Ef3. change (frames g3t) with (frames g3). rewrite (proj1 (Hlk3 j)).
+      rewrite (Hoth2 (lregn j) (fun E => uname_not_lregn x j Hx (eq_sym E))). change (frames g1t) with (frames g1). exact (proj1 (Hlk1 j)). }
     assert (HxBb : In x Bb) by (unfold Bb; destruct collide; [exact (proj1 HxB)|now left]).
     assert (Hcx : exists cx, lookup_scopes x lL = Some cx).
     { pose proof (bound_in_look _ _ _ HbL1 HxBb) as Hl0. fold lL in Hl0. destruct (lookup_scopes x lL); [eexists; reflexivity|congruence]. }
@@ -3519,12 +3528,12 @@ Section Sim.
     rewrite ok_SFrom in Hok. rewrite !Bool.andb_true_iff in Hok. destruct Hok as [[Hoa Hob] [Hst Hokb]].
     apply step_ok_expr in Hst.
     rewrite sitems_SFrom in *. cbv zeta in *. cbn [from_idn from_lr1] in *. rewrite step_code_expr in *.
-    rewrite (xcode_pure c b (proj1 (ok_expr_parts _ _ Hob))) in *.
+    cbn [ok_fromb] in Hob.
     set (se := step_expr step) in *.
     set (cb0 := bitems c (S (S lr)) (Some 1) body) in *.
     set (idn := lregn (S lr)) in *.
     set (endr := lregn (S (S lr))) in *.
-    set (la := length (xcode c a0)) in *. set (lb := length (pcode c b)) in *. set (lbd := length cb0) in *.
+    set (la := length (xcode c a0)) in *. set (lb := length (xcode c b)) in *. set (lbd := length cb0) in *.
     set (ls := length (pcode c se)) in *.
     match type of Hend with k + length ?L < _ =>
       assert (Hlen : length L = la + 1 + lb + 1 + 3 + 1 + (lbd + ls + 2) + 1)
@@ -3584,17 +3593,9 @@ Section Sim.
     destruct (eval (S fuel) env a0 s00) as [va s|s|f s|]; cbn [rhs_res] in He; [|exact Logic.I|exact He|exact Logic.I].
     destruct He as (Hfoa & a1x & g1 & R1 & Hip1 & Hops1 & HG1 & Hf1 & Ha1 & Hss1 & Hlk1 & _).
     rewrite (act_ext a a1x _ _ Ha1 Hip1 Hops1 Hss1) in R1. clear a1x Hip1 Hops1 Ha1 Hss1.
-    (* the hidden counter: source name `hid` in the innermost scope, VM register L#(lr+1) in the top frame *)
     destruct (locals env) as [|sc0 l'] eqn:El; [exact (False_ind _ (Rg_ne _ _ _ HG1 El))|].
-    set (cx := N.of_nat (length (store s))).
-    set (lL := assoc_set hid cx sc0 :: l').
-    set (env1 := {| locals := lL; captured := captured env; cur := cur env |}).
-    set (s1 := {| store := store s ++ [va]; rout := rout s |}).
-    assert (Edec : declare env s hid va = (env1, s1)).
-    { unfold declare, alloc. rewrite El. reflexivity. }
-    assert (Es1 : forall c0 v, sget s c0 = Some v -> sget s1 c0 = Some v).
-    { intros c0 v Hv. unfold sget in *. cbn [s1 store]. rewrite nth_error_app1; [exact Hv|apply nth_error_Some; congruence]. }
-    (* store_fast L#(lr+1) *)
+    (* store_fast L#(lr+1): the hidden counter's register in the top frame (the reference semantics declares the counter
+       only after it has evaluated the upper bound) *)
     set (a1 := upd a k1 [inj va]) in *.
     set (i_sx := mkI OP_STORE_FAST [idn]) in *.
     set (g1t := trc name a1 g1 i_sx).
@@ -3609,42 +3610,54 @@ Section Sim.
     { eapply xrun_trans; [exact R1|].
       eapply (xstep_next prog name code a1 g1 i_sx _ k1 (set_ops a1 [])); [reflexivity|exact Hi1|apply dec_store_fast|].
       apply (exec_store_fast idn a1 g1t (inj va) g2); [reflexivity|exact Hbind1]. }
-    set (pins2 := add_spin (add_vpin pins c' (inj va)) cx va).
-    assert (HG2 : Rg pins2 env1 s1 g2).
-    { pose proof (alloc_rel _ _ _ _ va HG2v) as HA. fold cx s1 in HA.
-      pose proof (top_swap_rel _ env s1 g2 sc0 l' F1 R (assoc_set hid cx sc0) (vars F1) HA El eq_refl) as HT.
+    set (pinsV := add_vpin pins c' (inj va)) in *.
+    (* freshness of the counter's VM cell *)
+    assert (HfrV : forall (Q : pinset) l0 fs0 st0, pins_ok Q l0 fs0 st0 (cells g1t) -> forall w, ~ vpin Q c' w).
+    { intros Q l0 fs0 st0 [H1 _] w Hq. destruct (H1 c' w Hq) as [A _]. unfold c' in A. rewrite Nnat.Nat2N.id in A.
+      assert (length (cells g1t) < length (cells g1t)) by (apply nth_error_Some; congruence). lia. }
+    pose proof (HfrV _ _ _ _ (Rg_pins _ _ _ HG1t)) as HPv. pose proof (HfrV _ _ _ _ (Rg_fpin _ _ _ HG1t)) as HFv.
+    (* the upper bound (it may contain calls): evaluated by the reference semantics before the counter exists *)
+    pose proof (rhs_run b pinsV c (S fuel) (S k1) a2 g2 env s B ltac:(lia) Hob Hb
+                  ltac:(fold lb; unfold fin, kd, kj, kp, ks, kb, kw, kc, k3 in *; lia) Hcb
+                  ltac:(fold lb; unfold fin, kd, kj, kp, ks, kb, kw, kc, k3 in *; lia) eq_refl Hacb eq_refl HG2v) as Heb.
+    fold lb in Heb. rename s into s0a.
+    destruct (eval (S fuel) env b s0a) as [vb s|s|f s|]; cbn [rhs_res] in Heb; [|exact Logic.I| |exact Logic.I].
+    2:{ eapply fail_post_map; [|exact Heb]. intros (e0 & g' & Hf & Hr & Ho). exists e0, g'.
+        split; [eapply xrun_fail; [exact R2|exact Hf]|]. auto. }
+    destruct Heb as (Hfob & a3x & g3 & R3 & Hip3 & Hops3 & HG3v & Hf3 & Ha3 & Hss3 & Hlk3 & _).
+    rewrite (act_ext a2 a3x _ _ Ha3 Hip3 Hops3 Hss3) in R3. clear a3x Hip3 Hops3 Ha3 Hss3.
+    (* the top frame of g3, explicitly *)
+    destruct g3 as [cs3 fs3 o3 tr3]. cbn [frames] in Hf3, Hlk3.
+    destruct fs3 as [|[lb3 vs3] Rx]; [exfalso; exact (proj2 (Rfr_ne _ _ _ _ (Rg_fr _ _ _ HG3v)) eq_refl)|].
+    cbn [tl g2 frames] in Hf3. subst Rx.
+    set (g3 := {| cells := cs3; frames := {| lab := lb3; vars := vs3 |} :: R; out := o3; trace := tr3 |}) in *.
+    (* the hidden counter: source name `hid` in the innermost scope, VM register L#(lr+1) in the top frame *)
+    set (cx := N.of_nat (length (store s))).
+    set (lL := assoc_set hid cx sc0 :: l').
+    set (env1 := {| locals := lL; captured := captured env; cur := cur env |}).
+    set (s1 := {| store := store s ++ [va]; rout := rout s |}).
+    assert (Edec : declare env s hid va = (env1, s1)).
+    { unfold declare, alloc. rewrite El. reflexivity. }
+    assert (Es1 : forall c0 v, sget s c0 = Some v -> sget s1 c0 = Some v).
+    { intros c0 v Hv. unfold sget in *. cbn [s1 store]. rewrite nth_error_app1; [exact Hv|apply nth_error_Some; congruence]. }
+    set (pins2 := add_spin pinsV cx va).
+    assert (HG3 : Rg pins2 env1 s1 g3).
+    { pose proof (alloc_rel _ _ _ _ va HG3v) as HA. fold cx s1 in HA.
+      pose proof (top_swap_rel _ env s1 g3 sc0 l' {| lab := lb3; vars := vs3 |} R (assoc_set hid cx sc0) vs3 HA El eq_refl) as HT.
       apply HT.
       - intros y Hy. now rewrite assoc_set_other.
       - intros y _. reflexivity.
       - pose proof (Rg_nd _ _ _ HA) as Hnd. inversion Hnd; assumption. }
-    (* freshness of the two counter cells *)
-    assert (HfrV : forall (Q : pinset) l0 fs0, pins_ok Q l0 fs0 (store s) (cells g1t) -> forall w, ~ vpin Q c' w).
-    { intros Q l0 fs0 [H1 _] w Hq. destruct (H1 c' w Hq) as [A _]. unfold c' in A. rewrite Nnat.Nat2N.id in A.
-      assert (length (cells g1t) < length (cells g1t)) by (apply nth_error_Some; congruence). lia. }
-    assert (HfrS : forall (Q : pinset) l0 fs0, pins_ok Q l0 fs0 (store s) (cells g1t) -> forall v, ~ spin Q cx v).
-    { intros Q l0 fs0 [_ H2] v Hq. destruct (H2 cx v Hq) as [A _]. unfold cx in A. rewrite Nnat.Nat2N.id in A.
+    (* freshness of the counter's source cell *)
+    assert (HfrS : forall (Q : pinset) l0 fs0 cs0, pins_ok Q l0 fs0 (store s) cs0 -> forall v, ~ spin Q cx v).
+    { intros Q l0 fs0 cs0 [_ H2] v Hq. destruct (H2 cx v Hq) as [A _]. unfold cx in A. rewrite Nnat.Nat2N.id in A.
       assert (length (store s) < length (store s)) by (apply nth_error_Some; congruence). lia. }
-    pose proof (HfrV _ _ _ (Rg_pins _ _ _ HG1t)) as HPv. pose proof (HfrS _ _ _ (Rg_pins _ _ _ HG1t)) as HPs.
-    pose proof (HfrV _ _ _ (Rg_fpin _ _ _ HG1t)) as HFv. pose proof (HfrS _ _ _ (Rg_fpin _ _ _ HG1t)) as HFs.
+    assert (HPs : forall v, ~ spin pins cx v).
+    { intros v Hq. exact (HfrS _ _ _ _ (Rg_pins _ _ _ HG3v) v Hq). }
+    pose proof (HfrS _ _ _ _ (Rg_fpin _ _ _ HG3v)) as HFs.
     assert (HbL1 : bound_in B env1).
     { destruct Hb as [H1 H2]. split; [|exact H2]. intros y Hy. rewrite <- (H1 y Hy). cbn [env1 locals lL lookup_scopes].
       rewrite El. cbn [lookup_scopes]. now rewrite assoc_set_other. }
-    (* the upper bound: the reference semantics evaluates it before the counter exists; same result *)
-    destruct (ok_expr_parts _ _ Hob) as (Hpb & Hlb & Hub).
-    assert (Hagb : forall y, In y (used_e b) -> agree env s env1 s1 y).
-    { eapply (agree_of pins env s g1 env1 s1 b B HG1 Hob Hb eq_refl); [|exact Es1].
-      intros y Hy. rewrite El. cbn [env1 locals lL lookup_scopes].
-      rewrite assoc_set_other; [reflexivity|]. intros ->. destruct (Hub hid Hy) as [[_ [_ Hh]] _]. exact (Hh eq_refl). }
-    destruct (eval_pure_congr b Hpb (S fuel) env s env1 s1 Hagb) as [Hst_b Eb1].
-    pose proof (expr_run_ext pins2 b c (S fuel) (S k1) a2 g2 env1 s1 Hpb Hlb
-                  ltac:(intros x Hx; destruct (Hub x Hx) as [Hs0 Hin]; eapply vsrc_of; eassumption)
-                  ltac:(lia) Hcb ltac:(fold lb; unfold fin, kd, kj, kp, ks, kb, kw, kc, k3 in *; lia) eq_refl eq_refl Hacb HG2) as Heb.
-    rewrite Eb1 in Heb. fold lb in Heb.
-    destruct (eval (S fuel) env b s) as [vb sb|sb|f sb|]; cbn [res_to res_st] in Hst_b, Heb; [|contradiction| |exact Logic.I].
-    2:{ subst sb. destruct Heb as (_ & e0 & g' & Hf & Hr & Ho).
-        eapply post_expr_fail; [eapply xrun_fail; [exact R2|exact Hf]|exact Hr|exact Ho]. }
-    subst sb. destruct Heb as (_ & Hfob & g3 & R3 & HG3 & He3).
-    pose proof (ext_tail _ _ _ _ _ He3) as Hf3. pose proof (lkeepA_ext _ _ _ _ _ He3) as Hlk3.
     destruct va as [i0|?|?| |? ? ?]; try exact Logic.I.
     destruct vb as [hi|?|?| |? ? ?]; try exact Logic.I.
     cbv zeta. change [0%N] with hid.
@@ -3660,7 +3673,7 @@ Section Sim.
     set (F2 := {| lab := lab f3; vars := assoc_set endr ce (vars f3) |}) in *.
     match type of HG4 with Rg _ _ _ ?G => set (g4 := G) in * end.
     assert (ER : R' = R).
-    { assert (H : tl (frames g3t) = tl (frames g2)) by exact Hf3. rewrite Ef3 in H. exact H. }
+    { assert (H : frames g3t = {| lab := lb3; vars := vs3 |} :: R) by reflexivity. rewrite Ef3 in H. now inversion H. }
     subst R'.
     set (a4 := upd a (S (S k1 + lb)) []).
     assert (Hip4 : a_ip a4 = kc) by reflexivity.
@@ -3672,8 +3685,8 @@ Section Sim.
     assert (HR_tl : R = tl (frames g)).
     { rewrite <- Hf1. change (frames g1) with (frames g1t). now rewrite Ef1. }
     assert (Hidf3 : assoc idn (vars f3) = Some c').
-    { pose proof (ext_top _ _ _ _ _ He3 idn ltac:(intros (k0 & _ & _ & E); exact (lregn_not_reg _ _ E))) as H.
-      change (frames g3) with (frames g3t) in H. rewrite Ef3 in H. cbn [top_vars frames g2 F1 vars] in H. rewrite H. apply assoc_set_same. }
+    { pose proof (proj2 (Hlk3 (S lr))) as H. fold idn in H.
+      change ({| lab := lb3; vars := vs3 |} :: R) with (frames g3t) in H. rewrite Ef3 in H. cbn [top_vars frames g2 F1 vars] in H. rewrite H. apply assoc_set_same. }
     assert (HaiF2 : assoc idn (vars F2) = Some c').
     { unfold F2. cbn [vars]. rewrite assoc_set_other by exact Hie. exact Hidf3. }
     assert (HaeF2 : assoc endr (vars F2) = Some ce) by (unfold F2; cbn [vars]; apply assoc_set_same).
@@ -3681,18 +3694,19 @@ Section Sim.
     assert (HndF2 : keys_nd (vars F2)).
     { pose proof (Rg_nd _ _ _ HG4) as Hnd. rewrite Ef4 in Hnd. inversion Hnd; assumption. }
     assert (Hcec : ce <> c').
-    { unfold ce, c'. intros E. apply Nnat.Nat2N.inj in E.
-      destruct (ext_cells _ _ _ _ _ He3) as [extra Ec]. change (cells g3t) with (cells g3) in E. rewrite Ec in E.
-      cbn [g2 cells] in E. rewrite !app_length in E. cbn [length] in E. lia. }
+    { intros E. destruct (Rg_pins _ _ _ HG3) as [Hv _].
+      destruct (Hv c' _ (or_introl (conj eq_refl eq_refl))) as [A _].
+      assert (Hl : N.to_nat c' < length (cells g3)) by (apply nth_error_Some; congruence).
+      rewrite <- E in Hl. unfold ce in Hl. rewrite Nnat.Nat2N.id in Hl. change (cells g3t) with (cells g3) in Hl. lia. }
     assert (HlkF2 : lkeep lr (frames g) (F2 :: R)).
     { intros j Hj. destruct (Hnej j Hj) as [N1 N2]. cbn [find_in_function F2 vars lab]. rewrite assoc_set_other by exact N2.
       change (match assoc (lregn j) (vars f3) with Some c0 => Some c0 | None => if special (lab f3) then find_in_function (lregn j) R else None end)
         with (find_in_function (lregn j) (f3 :: R)).
-      rewrite <- Ef3. change (frames g3t) with (frames g3). rewrite (Hlk3 j).
+      rewrite <- Ef3. change (frames g3t) with (frames g3). eapply eq_trans; [exact (proj1 (Hlk3 j))|].
       cbn [g2 frames find_in_function F1 vars lab]. rewrite assoc_set_other by exact N1.
       change (match assoc (lregn j) (vars f1) with Some c0 => Some c0 | None => if special (lab f1) then find_in_function (lregn j) R else None end)
         with (find_in_function (lregn j) (f1 :: R)).
-      rewrite <- Ef1. change (frames g1t) with (frames g1). exact (Hlk1 j). }
+      rewrite <- Ef1. change (frames g1t) with (frames g1). exact (proj1 (Hlk1 j)). }
     set (pL := fun i : Z => cpins pins cx c' i ce hi).
     assert (HG4' : Rg (pL i0) env1 s1 g4).
     { eapply Rg_pins_imp; [exact HG4| |].
@@ -3844,7 +3858,7 @@ Section Sim.
         destruct (Rg_pins _ _ _ HGE) as [PVE PSE].
         assert (G3 : sget s2 cx = Some (RInt i)) by exact (proj1 (PSE cx (RInt i) (or_introl (conj eq_refl eq_refl)))).
         assert (G4 : cell_get gE c' = Some (VInt i)) by exact (proj1 (PVE c' (VInt i) (or_introl (conj eq_refl eq_refl)))).
-        assert (G2 : find_in_function idn (frames gE) = Some c') by exact (eq_trans (HlkE (S lr)) HidB).
+        assert (G2 : find_in_function idn (frames gE) = Some c') by exact (eq_trans (proj1 (HlkE (S lr))) HidB).
         rewrite G3.
         destruct sv as [d|?|?| |? ? ?]; try exact Logic.I.
         pose proof (from_add_run kp idn d aE gE c' i Hs2' eq_refl eq_refl G2 G4) as Hsr.
